@@ -7,7 +7,8 @@ Thorough == "TIER" \in DOMAIN IOEnv /\ IOEnv.TIER = "thorough"
 x == TSym("x")
 B(k, a, b) == TOp(k, <<a, b>>)
 U(k, a) == TOp(k, <<a>>)
-Sub(S, n) == IF Thorough \/ Cardinality(S) <= n THEN S ELSE RandomSubset(n, S)
+\* (the thorough tier samples three times as many of each operand set)
+Sub(S, n) == LET m == IF Thorough THEN 3 * n ELSE n IN IF Cardinality(S) <= m THEN S ELSE RandomSubset(m, S)
 FP == 1048576                                   \* fixed point: units of 2^-20
 Approx(p, q) == (2 * p * FP + q) \div (2 * q)   \* round(p/q * 2^20), q > 0
 Root(t, re, im) == [t |-> t, re |-> re, im |-> im]
